@@ -308,6 +308,26 @@ def handlePhysics (j : Json) : Except String Json := do
     ("mu", if n == 0 then Json.null else ratJson (Physics.mu species y)),
     ("elem", Json.arr ((List.range nelem).map fun e => ratJson (Physics.elementAbund species e y)).toArray)]
 
+/-- `reqeq`: `Reaction.__eq__` and the hash key on pairs of a list of reactions -/
+def handleReqEq (j : Json) : Except String Json := do
+  let rs ← (← (← j.getObjVal? "reactions").getArr?).toList.mapM fun r => do
+    let re ← natList (← r.getObjVal? "re")
+    let pr ← natList (← r.getObjVal? "pr")
+    let tmin ← (← r.getObjVal? "tmin").getInt?
+    let tmax ← (← r.getObjVal? "tmax").getInt?
+    let ty ← (← r.getObjVal? "ty").getNat?
+    pure (ReqEq.R.mk re pr tmin tmax ty)
+  let arr := rs.toArray
+  let pairs ← (← (← j.getObjVal? "pairs").getArr?).toList.mapM fun p => do
+    let a ← (← p.getArrVal? 0).getNat?
+    let b ← (← p.getArrVal? 1).getNat?
+    pure (a, b)
+  let out ← pairs.mapM fun (a, b) => do
+    match arr[a]?, arr[b]? with
+    | some x, some y => pure (Json.arr #[Json.bool (ReqEq.eqR x y), Json.bool (ReqEq.hashKey x == ReqEq.hashKey y)])
+    | _, _ => throw "pair index out of range"
+  pure (Json.arr out.toArray)
+
 def handleSymVerdict (j : Json) : Except String Json := do
   let comps ← (← (← j.getObjVal? "comps").getArr?).toList.mapM fun c => do
     (← c.getArr?).toList.mapM fun v => do
@@ -405,6 +425,7 @@ def handle (line : String) : String :=
       | "species" => handleSpecies j
       | "renorm" => handleRenorm j
       | "physics" => handlePhysics j
+      | "reqeq" => handleReqEq j
       | "symverdict" => handleSymVerdict j
       | "ftoc" => handleFtoC j
       | "parseopts" => handleParseOpts j
